@@ -327,6 +327,12 @@ class Gen:
                 at += ' preserveAspectRatio="%s"' % (a + rng.choice(["", " meet", " slice"]) if a != "none" else a)
         if rng.random() < 0.4:
             at += ' overflow="%s"' % rng.choice(["visible", "hidden"])
+        if rng.random() < 0.35:
+            # presentation attributes on the nested svg itself: inherited by (fill ...) or applied to (opacity, display) its content
+            pa = [(k, v) for k, v in paint_attrs(rng, self.F) if k != "fill-rule"] if rng.random() < 0.7 else []
+            if self.F.display and rng.random() < 0.25:
+                pa.append(("display", "none"))
+            at += emit_attrs(rng, self.F, pa)
         return "<svg%s>%s</svg>" % (at, kids)
 
     def node(self, depth):
